@@ -36,6 +36,61 @@ pub struct Case {
     /// turn plugin n into an editable install outside the workspace (third-party)
     pub outside_mask: u8,
     pub with_pytest_internal: bool,
+    /// a deliberately deep import graph among the helper modules next to one conftest.py
+    #[serde(default)]
+    pub web: Option<Web>,
+}
+
+/// Import web: nodes 0 = a conftest.py, 1..=4 = helper modules in its directory; `edges` are import
+/// statements (from, to, form) added in this order; the fixture `echo` (a name nothing else defines)
+/// is defined in helper `def_at`. Whether and through which statements `echo` reaches the conftest is
+/// for the model to say.
+#[derive(Clone, Debug, Serialize, Deserialize)]
+pub struct Web {
+    pub dir: u8,
+    pub edges: Vec<(u8, u8, u8)>,
+    pub def_at: u8,
+}
+
+pub const WEB_NAME: usize = 4;
+
+fn apply_web(ws: &mut WorkspaceSpec, w: &Web) {
+    let mut dirs: Vec<usize> = ws.files.iter().filter(|f| f.loc.is_conftest()).map(|f| f.loc.dir).collect();
+    dirs.sort();
+    dirs.dedup();
+    let dir = if dirs.is_empty() { 0 } else { dirs[(w.dir as usize * dirs.len()) >> 8] };
+    let node_loc = |n: u8| -> FileLoc {
+        if n == 0 {
+            FileLoc { dir, kind: FileKind::Conftest }
+        } else {
+            FileLoc { dir, kind: FileKind::Helper(n) }
+        }
+    };
+    for n in 0..=4u8 {
+        if ws.find(&node_loc(n)).is_none() {
+            ws.files.push(FileSpec { loc: node_loc(n), items: vec![] });
+        }
+    }
+    let mut added: BTreeMap<u8, usize> = BTreeMap::new();
+    for (from, to, form) in &w.edges {
+        let (from, to) = (from % 5, 1 + to % 4);
+        if from == to {
+            continue;
+        }
+        let form = match form % 4 {
+            0 | 1 => ImportForm::Star,
+            2 => ImportForm::Explicit(vec![WEB_NAME]),
+            _ => ImportForm::Plugins,
+        };
+        let level = if form == ImportForm::Plugins { 0 } else { 1 };
+        let i = ws.find(&node_loc(from)).unwrap();
+        let at = added.entry(from).or_insert(0);
+        ws.files[i].items.insert(*at, Item::Import(ImportSpec { form, module: to, level }));
+        *at += 1;
+    }
+    let i = ws.find(&node_loc(1 + w.def_at % 4)).unwrap();
+    ws.files[i].items.push(Item::Fixture(FixtureSpec { name: WEB_NAME, alias_fn: None, deps: vec![], scope: 0, autouse: false, body: 0, deco: 0, tag: 0, usefixtures: vec![], body_uses: vec![] }));
+    crate::gen::normalise(&cfg(), ws);
 }
 
 pub fn cfg() -> GenCfg {
@@ -43,12 +98,18 @@ pub fn cfg() -> GenCfg {
 }
 
 pub fn case() -> impl Strategy<Value = Case> {
-    (workspace(cfg()), vec(0u8..5, 4), vec(0u8..3, 4), 0u8..8, prop_oneof![2 => Just(false), 1 => Just(true)]).prop_map(|(ws, tp_layout, plug_layout, outside_mask, with_pytest_internal)| Case { ws, tp_layout, plug_layout, outside_mask, with_pytest_internal })
+    let web = (any::<u8>(), vec((0u8..5, 0u8..4, 0u8..4), 2..=7), 0u8..4).prop_map(|(dir, edges, def_at)| Web { dir, edges, def_at });
+    (workspace(cfg()), vec(0u8..5, 4), vec(0u8..3, 4), 0u8..8, prop_oneof![2 => Just(false), 1 => Just(true)], prop_oneof![1 => Just(None), 1 => web.prop_map(Some)])
+        .prop_map(|(ws, tp_layout, plug_layout, outside_mask, with_pytest_internal, web)| Case { ws, tp_layout, plug_layout, outside_mask, with_pytest_internal, web })
 }
 
 /// the workspace the model and the disk see: some plugins moved outside, _pytest added
 pub fn effective_ws(c: &Case) -> WorkspaceSpec {
-    let mut ws = with_probes(&c.ws, cfg().names);
+    let mut base = c.ws.clone();
+    if let Some(w) = &c.web {
+        apply_web(&mut base, w);
+    }
+    let mut ws = with_probes(&base, if c.web.is_some() { WEB_NAME + 1 } else { cfg().names });
     for f in ws.files.iter_mut() {
         if let FileKind::Plugin(n) = f.loc.kind {
             if (c.outside_mask >> (n % 3)) & 1 == 1 {
@@ -101,6 +162,9 @@ pub fn check_case(c: &Case, info: &mut CaseInfo) -> Outcome {
         }
         depth(&m, f, &mut BTreeSet::new())
     };
+    if c.web.is_some() {
+        info.classes.push(format!("web: echo reaches the conftest = {}", (0..ws.files.len()).any(|f| ws.files[f].loc.is_conftest() && m.imported[f].contains_key(NAMES[WEB_NAME]))));
+    }
     if (0..ws.files.len()).any(|f| hops(f) >= 2) || ws.files.iter().filter(|f| f.loc.is_plugin() || f.loc.is_third_party()).count() >= 2 {
         info.nontrivial = true;
     }
@@ -223,7 +287,7 @@ pub fn check_case(c: &Case, info: &mut CaseInfo) -> Outcome {
 }
 
 pub fn run(ctx: &Ctx) {
-    ctx.run_prop_shrink("scan", ctx.tier.pick(500, 15_000), 16, 400, case, |c, info| check_case(c, info));
+    ctx.run_prop_shrink("scan", ctx.tier.pick(3_000, 150_000), 16, 400, case, |c, info| check_case(c, info));
 }
 
 pub fn judge(_ctx: &Ctx, sub: &str, case: &Value) -> Option<Outcome> {
